@@ -123,6 +123,9 @@ var noEffectPrefixes = []string{
 	"github.com/lindb/lindb/metrics.",
 	"github.com/lindb/lindb/internal/linmetric.",
 	"github.com/lindb/common/pkg/ltoml.",
+	// flatbuffers builder calls only touch the builder they are given
+	"github.com/google/flatbuffers/go.Builder.",
+	"github.com/lindb/common/proto/gen/v1/flatMetricsV1.",
 	"fmt.Sprintf", "fmt.Errorf", "fmt.Sprint", "fmt.Println", "fmt.Printf", "fmt.Fprintf",
 	"errors.New", "errors.Is", "errors.As", "errors.Unwrap",
 	"time.Now", "time.Since", "time.Duration.", "time.Time.",
